@@ -123,7 +123,7 @@ PROPS["C09"] = {
     "rule": ("Part A: a case = (interval, producer count, round) window, all non-trivial (each spans 4 boundaries incl. a wrap-around); random cases "
              "non-trivial when the two instants lie in different slots. Part B: a case = (producer set, signer, timestamp, mutation); non-trivial = "
              "mutated block that still parses; distinct by the tuple."),
-    "assumptions": ["positive timestamps (>= 1 ms after the epoch)"],
+    "assumptions": ["Part A: positive timestamps (>= 1 ms after the epoch); Part B also covers pre-epoch instants"],
     "units": [
         {"pkg": "consensus/impl/dpos/slot", "run": "^TestC09SlotExhaustive$",
          "quick": {"shards": 8, "timeout": 240, "env": {"VERIF_C09_MAXN": 100}},
@@ -131,6 +131,9 @@ PROPS["C09"] = {
         {"pkg": "consensus/impl/dpos/slot", "run": "^TestC09SlotRandom$",
          "quick": {"checks": 20000, "shards": 2, "timeout": 240},
          "thorough": {"checks": 400000, "shards": 6, "timeout": 900}},
+        {"pkg": "verifx/c08", "run": "^TestC09Blocks$",
+         "quick": {"checks": 400, "shards": 8, "timeout": 400},
+         "thorough": {"checks": 8000, "shards": 16, "timeout": 1700}},
     ],
 }
 
